@@ -585,7 +585,7 @@ def plan (tier, seed):
   sp = [dict(mode="exh", nsubs=1, shard=0, nshards=1)]
   sp += [dict(mode="exh", nsubs=2, shard=i, nshards=2) for i in range(2)]
   sp += [dict(mode="exh", nsubs=3, shard=i, nshards=48) for i in range(48)]
-  sp += [dict(mode="rand", n=30000, maxlen=40, sub=i) for i in range(16)]
+  sp += [dict(mode="rand", n=60000, maxlen=40, sub=i) for i in range(32)]
   sp += [dict(mode="weak", n=5000)]
   return sp
 
